@@ -7,7 +7,11 @@ import shutil
 import sqlite3
 import subprocess
 
+import sys
+
 HERE = os.path.dirname(os.path.abspath(__file__))
+if HERE not in sys.path:
+    sys.path.insert(0, HERE)
 LEAN_DIR = os.path.join(os.path.dirname(HERE), "lean")
 
 SEP_OBJ, SEP_ENTRY, SEP_PATH, SEP_FIELD = "\x1f", "\x1e", "\x1d", "\x1c"
@@ -15,21 +19,9 @@ DB = "db.sqlite"
 
 
 # ---------------------------------------------------------------- SQL text canonicalisation
-def strip_sql_comments(text):
-    out = []
-    for line in text.splitlines():
-        i = line.find("--")
-        if i >= 0:
-            line = line[:i]
-        out.append(line)
-    return "\n".join(out)
-
-
-def normalise_stmt(stmt):
-    """same normal form as harness/translate.py (kept in step by test_translate_agrees)"""
-    s = re.sub(r"\s+", " ", stmt).strip()
-    s = re.sub(r"\s*([(),=])\s*", r"\1", s)
-    return s
+# the normal form of SQL text is the translator's (harness/translate.py), so that the texts in
+# Generated.lean and the texts observed in sqlite_master / in the statement trace agree
+from translate import strip_sql_comments, normalise_stmt  # noqa: E402
 
 
 def canon_sql(raw):
